@@ -419,7 +419,7 @@ func suiteBodies(full bool) hlib.Suite {
 }
 
 func suites(tier string) []hlib.Suite {
-	return []hlib.Suite{suiteSetup(tier != "quick"), suiteBodies(tier != "quick")}
+	return []hlib.Suite{suiteSetup(true), suiteBodies(tier != "quick")}
 }
 
 func main() { hlib.EnumMain("C06", suites) }
